@@ -175,22 +175,30 @@ def _classify_rt(v):
 def roundtrip_params(tier):
     return [dict(fmt=f) for f in ('arff_dense','arff_sparse','csv','libsvm','manik')]
 
-@obligation('C12','table_roundtrip', bounds={'quick':"tables of 2 rows x 3 columns (numeric, string from a 12-word vocabulary with , ' \" \\\\ % ? {} space tab unicode, nominal with a spaced level), one missing cell position or none; ARFF dense (keyword case, comment and blank lines, quote style, comma/comma-space/tab delimiter) and sparse, CSV (RFC-4180 quoting, header), LibSVM and Manik",
+@obligation('C12','table_roundtrip', bounds={'quick':"tables of 2 rows x 3 columns (numeric, string from a 12-word vocabulary with , ' \" \\\\ % ? {} space tab unicode, nominal with a spaced level), one missing cell position or none; ARFF dense (keyword case, comment and blank lines, quote style, comma/comma-space/tab delimiter, blanks around nominal levels, optional date attribute with/without format) and sparse, CSV (RFC-4180 quoting, header), LibSVM and Manik",
                                              'thorough':"same"},
             functions=FUNCS, params=roundtrip_params, classify=_classify_rt, budget={'quick':100,'thorough':900})
 def table_roundtrip(sym, fmt):
     sym.note(fmt=fmt)
     if fmt in ('arff_dense','arff_sparse'):
-        kw = sym.choice('case', ['@attribute','@ATTRIBUTE','@Attribute'])
-        comments = sym.flag('comments')
-        qs = sym.choice('quote', ['bare','single','double'])
-        delim = sym.choice('delim', [',', ', ', '\t']) if fmt == 'arff_dense' else ','
+        # header variants (blanks around nominal levels as Weka/OpenML write them; optional 4th attribute: a date, bare or with its format);
+        # the non-default variants are explored with the other dialect choices fixed, to bound the product
+        HDR = [("{A,B,'C D'}", None), ("{A, B, 'C D'}", "date"), ("{ A,B,'C D' }", "date 'yyyy-MM-dd'"), ("{'A','B','C D' }", 'date "yyyy-MM-dd HH:mm"'), ("{'A', 'B' , 'C D'}", None)]
+        nomdecl, date = sym.choice('header', HDR)
+        if (nomdecl, date) == HDR[0]:
+            kw = sym.choice('case', ['@attribute','@ATTRIBUTE','@Attribute'])
+            comments = sym.flag('comments')
+            qs = sym.choice('quote', ['bare','single','double'])
+            delim = sym.choice('delim', [',', ', ', '\t']) if fmt == 'arff_dense' else ','
+        else:
+            kw, comments, qs, delim = '@attribute', False, 'single', ','
         miss = sym.choice('missing', [None,(0,0),(1,1),(0,2),(1,0)])
         svals = [STR_VOCAB[unwrap(sym.int(f's{r}', 0, len(STR_VOCAB)-1))] for r in range(2)]
         table = [[NUMS[r], svals[r], NOMS[(r+1) % 3]] for r in range(2)]
         common = delim == ',' and kw == '@attribute' and qs != 'double'
         lines = ['% a comment', '@relation t'] if comments else ['@relation t']
-        lines += [f"{kw} num numeric", f"{kw} 'str col' string", f"{kw} nom {{A,B,'C D'}}", '', '@data' if not comments else '@DATA']
+        lines += [f"{kw} num numeric", f"{kw} 'str col' string", f"{kw} nom {nomdecl}"] + ([f"{kw} seen {date}"] if date else []) + ['', '@data' if not comments else '@DATA']
+        dvals = ["'2020-01-02'", "'2021-12-31 10:15'"]
         for r,row in enumerate(table):
             cells = []
             for c,v in enumerate(row):
@@ -198,6 +206,7 @@ def table_roundtrip(sym, fmt):
                 elif c == 0: cells.append(v)
                 elif c == 1: cells.append(q_arff(v, qs))
                 else: cells.append(q_arff(v, 'single' if ' ' in v else 'bare'))
+            if date: cells.append(dvals[r])
             if fmt == 'arff_dense': lines.append(delim.join(cells))
             else:
                 items = [f"{c} {v}" for c,v in enumerate(cells) if not (c == 0 and v == '0')]
@@ -216,7 +225,12 @@ def table_roundtrip(sym, fmt):
         for r,(g,flag) in enumerate(got):
             exp = [None if miss == (r,c) else (float(v) if c == 0 else v) for c,v in enumerate(table[r])]
             if fmt == 'arff_dense': vals = g
-            else: vals = [g.get('num', 0.0), g.get('str col'), g.get('nom')]
+            else: vals = [g.get('num', 0.0), g.get('str col'), g.get('nom')] + ([g.get('seen')] if date else [])
+            if date: exp = exp + [dvals[r].strip("'")]
+            sym.check(len(vals) == len(exp), f"row {r} has {len(vals)} cells, the file declares {len(exp)} attributes")
+            nom = vals[2]
+            if nom is not None and hasattr(nom, 'levels'):
+                sym.check(list(nom.levels) == ['A','B','C D'], f"nominal attribute declared as {nomdecl} read with levels {list(nom.levels)!r}")
             for c,(x,e) in enumerate(zip(vals,exp)):
                 ok = (x is None) if e is None else (x == e if c == 0 else str(x) == e)
                 sym.check(ok, f"cell ({r},{c}) read as {x!r} but the file says {e!r} :: line {lines[-(2-r) if not comments else -1]!r} quote={qs} delim={delim!r}")
